@@ -15,6 +15,8 @@ def run(ctx):
     pool = [src for src, ast, root, stream in progs if len(src) < 120 and stream != 'loops']
     # the first three: a symbol created at run time from text, then the same symbol written as a literal and turned back into
     # text — what one program leaves in the object (a nameless symbol cell) must not change what a later one computes
+    # `( )`, `( ( ) )`: programs whose main expression emits no instruction of its own (stand-alone they end with a run-time error)
+    empties = ['( )', '( ( ) )']
     fixed = ['"abc" ~# :x', ':abc ~# ""', '(:abc, :k) ~# ""', '5 + 5', '{ $ * 2 } <~ 4', '1 > 2 ?> 3 |> 4', '(1, :a = 2) . a', '{ !! ($ < 3) ?> $ |> ^~ $ + 1 } <~ 0', 'x && 1', '"ab" == "ab"', '1 [2] 3', '5 ; $ + 1']
     cases = []
     seqs = []
@@ -35,6 +37,10 @@ def run(ctx):
             for perm in itertools.permutations(combo):
                 for st in progsuite.STORES:
                     add_seq(st, list(perm), interleave=rnd.random() < 0.5)
+    for e in empties:
+        for other in fixed[3:9]:
+            for st in progsuite.STORES:
+                add_seq(st, [other, e, fixed[3]], interleave=False); add_seq(st, [e, other], interleave=True); add_seq(st, [other, e], interleave=False)
     for _ in range(400 if ctx.tier == 'quick' else 6000):
         k = rnd.randint(2, 4)
         add_seq(rnd.choice(progsuite.STORES), [rnd.choice(pool + fixed) for _ in range(k)], interleave=rnd.random() < 0.6)
@@ -81,7 +87,12 @@ def run(ctx):
             # trace of later runs may be truncated, so only the value is compared then
             if any('steplimit' in x for x in runs) and want[0] == 'ok' and got[0] == 'ok':
                 got, want = got[:2], want[:2]
-            if want[0] == 'ok' and got != want:
+            if want[0] == 'runerr' and got[0] == 'ok':
+                # stand-alone the program ends with a run-time error: in the shared object it must not quietly compute a value
+                # (e.g. by running into a neighbour's instructions)
+                ctx.fail('oracle', c, impl=got_items[-1], expect=simpl.get(alone[(st, s)]), note=f'program {i} ({s!r}) ends with a run-time error when built alone but computes a value in the shared object')
+                stats['different'] = stats.get('different', 0) + 1
+            elif want[0] == 'ok' and got != want:
                 ctx.fail('oracle', c, impl=got_items[-1], expect=simpl.get(alone[(st, s)]), note=f'program {i} ({s!r}) computes a different result in the shared object than when built alone')
                 stats['different'] = stats.get('different', 0) + 1
             else:
